@@ -28,6 +28,8 @@ func init() {
 			"external methods do not stash tainted arguments in their receiver for later retrieval",
 		},
 		Mutants: []Mutant{
+			{ID: "C11-passphrase-buffer-kept", Desc: "the ssh login loop keeps its buffer after typing the passphrase (typed again into an echoing session)", Rule: "C11/auth-reset",
+				Edits: []Edit{{File: "channel/auth.go", Old: "\t\t\tb = []byte{}\n\t\t}\n\t}\n}\n\n// AuthenticateSSH", New: "\t\t\tnb = []byte{}\n\t\t}\n\t}\n}\n\n// AuthenticateSSH"}}},
 			{ID: "C11-telnet-unredacted", Desc: "telnet password written without the redaction flag", Rule: "C11/T2",
 				Edits: []Edit{{File: "channel/auth.go", Old: "err = c.WriteAndReturn(p, true)\n\t\t\tif err != nil {\n\t\t\t\treturn &result{nil, err}\n\t\t\t}\n\t\t}\n\t}\n}\n\n// AuthenticateTelnet", New: "err = c.WriteAndReturn(p, false)\n\t\t\tif err != nil {\n\t\t\t\treturn &result{nil, err}\n\t\t\t}\n\t\t}\n\t}\n}\n\n// AuthenticateTelnet"}}},
 			{ID: "C11-secondary-visible", Desc: "secondary secret event not hidden", Rule: "C11/T3",
@@ -141,6 +143,8 @@ func loggingSink(c *Ctx) func(ci ssa.CallInstruction) (string, []int) {
 
 func runC11(c *Ctx, r *Report) {
 	importFoundation(c, r, "C11", "interactive")
+	r.Rule("C11/auth-reset", "after each credential the login loop starts from an empty buffer: a credential is typed once per prompt shown, never again into a session that echoes", 4)
+	checkAuthBufferReset(c, r, "C11/auth-reset")
 	r.Rule("C11/T1", "inside a write gate the logged value depends on the data only when the redaction flag is false", 1)
 	r.Rule("C11/T2", "every gate call with tainted data passes constant true, the enclosing gate's own flag, or the HideInput of the same event", 5)
 	r.Rule("C11/T3", "every interactive event literal with tainted ChannelInput has HideInput: true", 1)
